@@ -52,15 +52,65 @@ func genPkg(r *gal.Rand, name string, iif bool) PkgD {
 	if iif && r.Chance(1, 3) {
 		pk.Name = name + "-x"
 		pk.Deps = nil
-		for k := 1 + r.Intn(2); k > 0; k-- {
+		for k := 1 + r.Intn(3); k > 0; k-- {
 			t := gal.Pick(r, poolNames)
-			if r.Chance(1, 5) {
+			switch {
+			case r.Chance(1, 5):
 				t += "=" + gal.Pick(r, versions[:2])
+			case r.Chance(1, 5): // waits for another install_if package (chain)
+				t = gal.Pick(r, poolNames) + "-x"
+			case r.Chance(1, 12): // on a provided name
+				t = gal.Pick(r, virtNames)
+			case r.Chance(1, 12): // another operator: the loop compares the version text only
+				t += gal.Pick(r, ops) + gal.Pick(r, versions[:2])
 			}
 			pk.InstallIf = append(pk.InstallIf, t)
 		}
 	}
 	return pk
+}
+
+// more install_if structure on top of a base list (fully comparable since the
+// install_if loop is deterministic, fix c03e0c0): chains a-x -> a-x-y -> a-x-y-z
+// (also through name=version), several packages under one trigger, a package
+// waiting for two appended packages
+func genInstallIfExtras(r *gal.Rand, base []PkgD) []PkgD {
+	var made []string
+	for _, b := range base {
+		if len(b.InstallIf) > 0 {
+			made = append(made, b.Name)
+		}
+	}
+	var out []PkgD
+	for k := r.Intn(5); k > 0; k-- {
+		n := gal.Pick(r, poolNames)
+		switch r.Intn(5) {
+		case 0, 1: // chain link on something made so far (or on a plain -x name)
+			t := n + "-x"
+			if len(made) > 0 && r.Chance(3, 4) {
+				t = gal.Pick(r, made)
+			}
+			want := t
+			if r.Chance(1, 4) {
+				want = t + "=" + gal.Pick(r, versions)
+			}
+			out = append(out, PkgD{Name: t + "-y", Version: gal.Pick(r, versions), InstallIf: []string{want}})
+			made = append(made, t+"-y")
+		case 2: // a second package under the same trigger, and a second version of it
+			out = append(out, PkgD{Name: n + "-doc", Version: "1.0", InstallIf: []string{n}}, PkgD{Name: n + "-doc", Version: "2.0", InstallIf: []string{n}})
+			made = append(made, n+"-doc")
+		case 3: // waits for two appended packages
+			if len(made) >= 2 {
+				out = append(out, PkgD{Name: "join-" + n, Version: "1.0", InstallIf: []string{gal.Pick(r, made), gal.Pick(r, made)}})
+				made = append(made, "join-"+n)
+			}
+		case 4: // versioned next to unversioned for one name
+			out = append(out, PkgD{Name: n + "-v", Version: "1.0", InstallIf: []string{n + "=" + gal.Pick(r, versions)}},
+				PkgD{Name: n + "-any", Version: "1.0", InstallIf: []string{n, gal.Pick(r, poolNames)}})
+			made = append(made, n+"-v", n+"-any")
+		}
+	}
+	return out
 }
 
 func genUniverse(r *gal.Rand, iif bool) []IndexD {
@@ -71,6 +121,17 @@ func genUniverse(r *gal.Rand, iif bool) []IndexD {
 		base = append(base, genPkg(r, n, false))
 		if r.Chance(1, 3) {
 			base = append(base, genPkg(r, n, iif))
+		}
+	}
+	if iif {
+		extras := genInstallIfExtras(r, base)
+		// some before their triggers in the index, some after
+		for _, e := range extras {
+			if r.Chance(1, 3) {
+				base = append([]PkgD{e}, base...)
+			} else {
+				base = append(base, e)
+			}
 		}
 	}
 	nIdx := 2 + r.Intn(3)
@@ -195,9 +256,11 @@ func sameMultiset(a, b []ArchD) bool {
 func sameGrouping(a, b []ArchD) bool { return fmt.Sprint(a) == fmt.Sprint(b) }
 
 func genHistory(r *gal.Rand, i int) *History {
-	// the mix: mostly inside the envelope of c08_history_independent /
-	// c08_order_deterministic_partial, a smaller stream outside it
-	return genHistoryOpts(r, i, i%5 == 3, i%7 == 5)
+	// the mix: two in five universes carry install_if packages (the install_if
+	// loop is deterministic since fix c03e0c0, so all of them are compared with the
+	// model); one in seven histories regroups its indexes (outside the envelope of
+	// c08_history_independent: C08-F2)
+	return genHistoryOpts(r, i, i%5 == 3 || i%5 == 1, i%7 == 5)
 }
 
 func genHistoryOpts(r *gal.Rand, i int, iif, regroup bool) *History {
